@@ -621,6 +621,7 @@ def run(ctx):
     ctx.note("p2p_edges", len(edges))
     if len(edges) < 100:
         raise core.MachineryError("P2P edge dump too small")
+    core.edge_label_coverage(ctx, edges, lambda e: str(e["op"]) + ":" + str(e["d"].get("cls") if isinstance(e["d"], dict) else e["d"]), "p2p", 5)
     for e in edges:   # the tour builder expects ts/b style keys only for chaining; add what it needs
         e.setdefault("ts", 0)
     tours = tours_from_edges(edges, max_len=30)
@@ -670,6 +671,7 @@ def run(ctx):
     ctx.note("rdac_edges", len(edges))
     if len(edges) < 100:
         raise core.MachineryError("RDAC edge dump too small")
+    core.edge_label_coverage(ctx, edges, lambda e: str(e["d"].get("cls") if isinstance(e["d"], dict) else e["d"]) + ":" + str(e["d"].get("k") if isinstance(e["d"], dict) else ""), "rdac", 5)
     ctx.exhaustive = True
     seen, jobs = set(), []
     ipaddr = {"ip1": ("10.1.0.1", 50002), "ip2": ("10.1.0.2", 50002), "ip3": ("10.1.0.3", 50002)}
